@@ -355,11 +355,29 @@ def run(index: RepoIndex, rep) -> None:
                           f': two of them can coincide (agent on the exit, one pod instead of two, '
                           f'equal exit colours)', f'{name}: without replacement')
     ch = index.func('gym_gridverse/rng.py', 'choices')
-    txt = src(ch.node)
-    rep.check('rng.choice(len(data), size=size, **kwargs)' in txt and
-              'return [data[i] for i in indices]' in txt, 'C13.R2', 'gym_gridverse/rng.py',
-              'choices', ch.node.lineno, 'choices', 'rng.choices does not forward size and '
-              'replace to Generator.choice over the indices', 'choices forwards replace')
+    wch = walk_function(ch.node)
+    a_ = ch.node.args
+    pr = [x.arg for x in a_.posonlyargs + a_.args]
+    kwn = a_.kwarg.arg if a_.kwarg else None
+    rets = [e for e in wch.events if e.kind == 'return' and e.value is not None]
+    okc = False
+    got = ''
+    if len(rets) == 1 and len(pr) >= 2 and kwn:
+        v = wch.expand(rets[0].value)
+        got = src(v)
+        if isinstance(v, ast.ListComp) and len(v.generators) == 1 and \
+                not v.generators[0].ifs and isinstance(v.generators[0].target, ast.Name):
+            g_ = v.generators[0]
+            it = g_.iter
+            kws = {k.arg: src(k.value) for k in it.keywords} if isinstance(it, ast.Call) else {}
+            okc = isinstance(it, ast.Call) and src(it.func) == f'{pr[0]}.choice' and \
+                [src(x) for x in it.args] == [f'len({pr[1]})'] and \
+                kws.get('size') == 'size' and kws.get(None) == kwn and \
+                src(v.elt) == f'{pr[1]}[{g_.target.id}]'
+    rep.check(okc, 'C13.R2', 'gym_gridverse/rng.py',
+              'choices', ch.node.lineno, got[:160] or 'choices', 'rng.choices does not forward '
+              'size and replace to Generator.choice over the indices and return the items at '
+              'the drawn indices', 'choices forwards replace')
 
     # ---------------------------------------------------------------- runs
     runs: Dict[str, List[Ctx]] = {}
